@@ -40,20 +40,25 @@ def run(ctx):
     tg, tdesc = gens.make_targets(rng, dev, k=2, zmax=8)
     bg, _ = gens.make_gases(rng, k=1)
     from ebisim.simulation import AdvancedModel
-    opts, okw = gens.make_options(rng, RADIAL_DYNAMICS=False)
-    m = AdvancedModel.get(dev, tg, bg, opts)
-    ncol = 7
-    Y = np.stack([gens.make_state(rng, m) for _ in range(ncol)], axis=1)
-    ref = np.stack([_adv_rhs(m, 0.0, np.ascontiguousarray(Y[:, k]), None) for k in range(ncol)], axis=1)
-    big = np.zeros((Y.shape[0], 2 * ncol + 3)); big[:, 2:2 + ncol] = Y
-    layouts = {"C": np.ascontiguousarray(Y), "F": np.asfortranarray(Y), "sliced": big[:, 2:2 + ncol]}
-    for name, blk in layouts.items():
-        out = _chunked_adv_rhs(m, 0.0, blk)
-        ctx.evaluations += 1
-        ctx.seen(("chunked", name))
-        same = np.array_equal(out, ref, equal_nan=True)
-        if not same:
-            ctx.fail("correspondence", f"_chunked_adv_rhs on a {name}-ordered block differs from column-wise _adv_rhs", inp={"op": "chunked", "layout": name})
+    for rd_on in (False, True):
+        opts, okw = gens.make_options(rng, RADIAL_DYNAMICS=rd_on)
+        m = AdvancedModel.get(dev, tg, bg, opts)
+        ncol = 7
+        Y = np.stack([gens.make_state(rng, m) for _ in range(ncol)], axis=1)
+        if rd_on:   # keep the radial solver in its convergent regime: moderate densities, warm ions
+            Y[: m.nq] = np.minimum(Y[: m.nq], 1e7); Y[m.nq:] = np.maximum(Y[m.nq:], (5.0 * np.maximum(m.q, 1))[:, None])
+        ref = np.stack([_adv_rhs(m, 0.0, np.ascontiguousarray(Y[:, k]), None) for k in range(ncol)], axis=1)
+        big = np.zeros((Y.shape[0], 2 * ncol + 3)); big[:, 2:2 + ncol] = Y
+        layouts = {"C": np.ascontiguousarray(Y), "F": np.asfortranarray(Y), "sliced": big[:, 2:2 + ncol], "single": np.ascontiguousarray(Y[:, 3:4])}
+        for name, blk in layouts.items():
+            out = _chunked_adv_rhs(m, 0.0, blk)
+            ctx.evaluations += 1
+            ctx.seen(("chunked", name, rd_on))
+            refb = ref if name != "single" else ref[:, 3:4]
+            same = np.array_equal(out, refb, equal_nan=True)
+            if not same:
+                ctx.fail("correspondence", f"_chunked_adv_rhs on a {name}-ordered block (RADIAL_DYNAMICS={rd_on}) differs from column-wise _adv_rhs",
+                         inp={"op": "chunked", "layout": name, "radial_dynamics": rd_on})
     ctx.sample({"op": "chunked_adv_rhs", "targets": tdesc, "options": okw, "block_shape": list(Y.shape)})
 
 
@@ -98,25 +103,42 @@ def search(ctx):
                 break
         if V:
             break
+    from ebisim.simulation import ModelOptions
     d = Device.get(current=0.15, e_kin=4000., r_e=1e-4, v_ax=150., b_ax=2., r_dt=5e-3, length=0.8, n_grid=60)
     tg = [ebisim.Element.get_ions("C", 1e7, 5.0, 1), ebisim.Element.get_gas("Ne", 1e-9, d.r_dt)]
-    threads = [1, 2, 3, 5, 8, 16] if ctx.thorough else [1, 3]
-    hs = {}
-    for nt in threads:
-        r = advanced_simulation(d, tg, t_max=1e-3, n_threads=nt, verbose=False)
-        hs[nt] = digest(res_of(r).y, res_of(r).t)
+    threads = [1, 2, 3, 5, 8, 16] if ctx.thorough else [1, 3, 4]
+    for optname, opts, tmax in (("default", None, 1e-3), ("radial_dynamics", ModelOptions(RADIAL_DYNAMICS=True), 2e-5)):
+        hs = {}
+        for nt in threads:
+            r = advanced_simulation(d, tg, t_max=tmax, n_threads=nt, verbose=False, options=opts)
+            hs[nt] = digest(res_of(r).y, res_of(r).t)
+            ctx.evaluations += 1
+        if len(set(hs.values())) != 1:
+            V.append({"key": {"clause": "n_threads", "options": optname}, "what": f"advanced_simulation ({optname} options) result depends on n_threads: {hs}", "input": {"op": "threads", "threads": threads, "options": optname}})
+        # repetition in the same process, shuffled order
+        r2 = advanced_simulation(d, tg, t_max=tmax, n_threads=threads[-1], verbose=False, options=opts)
+        r1 = advanced_simulation(d, tg, t_max=tmax, n_threads=1, verbose=False, options=opts)
+        if digest(res_of(r2).y, res_of(r2).t) != hs[threads[-1]] or digest(res_of(r1).y, res_of(r1).t) != hs[1]:
+            V.append({"key": {"clause": "repeat_same_process", "options": optname}, "what": "repeating advanced_simulation in the same process gives different numbers", "input": {"op": "repeat", "options": optname}})
+    # an energy scan member equals the same simulation run alone (call history must not matter)
+    es = [3000., 500., 8000.]
+    kw = dict(element="Ar", j=80., t_max=0.02, dr_fwhm=None, solver_kwargs={"rtol": 1e-6})
+    a = energy_scan(ebisim.basic_simulation, dict(kw), es, parallel=False)
+    for e in es:
+        alone = ebisim.basic_simulation(element="Ar", j=80., e_kin=e, t_max=0.02, dr_fwhm=None, solver_kwargs={"rtol": 1e-6, "dense_output": True})
+        ra = a.get_result(e)
         ctx.evaluations += 1
-    if len(set(hs.values())) != 1:
-        V.append({"key": {"clause": "n_threads"}, "what": f"advanced_simulation result depends on n_threads: {hs}", "input": {"op": "threads", "threads": threads}})
-    # repetition in the same process, shuffled order
-    r2 = advanced_simulation(d, tg, t_max=1e-3, n_threads=threads[-1], verbose=False)
-    r1 = advanced_simulation(d, tg, t_max=1e-3, n_threads=1, verbose=False)
-    if digest(res_of(r2).y, res_of(r2).t) != hs[threads[-1]] or digest(res_of(r1).y, res_of(r1).t) != hs[1]:
-        V.append({"key": {"clause": "repeat_same_process"}, "what": "repeating advanced_simulation in the same process gives different numbers", "input": {"op": "repeat"}})
+        if digest(ra.N, ra.t) != digest(alone.N, alone.t):
+            V.append({"key": {"clause": "scan_member_vs_alone"}, "what": f"sequential energy_scan member at {e} eV differs from the same simulation run alone (results depend on call history)", "input": {"op": "escan_alone", "e": e}})
+            break
+    again = ebisim.basic_simulation(element="Ar", j=80., e_kin=500., t_max=0.02, dr_fwhm=None, solver_kwargs={"rtol": 1e-6, "dense_output": True})
+    first = a.get_result(500.)
+    if digest(first.N, first.t) != digest(again.N, again.t):
+        V.append({"key": {"clause": "repeat_basic"}, "what": "repeating basic_simulation with equal inputs gives different numbers", "input": {"op": "repeat_basic"}})
     ctx.cov["thread_counts"] = threads
     if ctx.thorough:
         # energy scan: process pool vs sequential
-        kw = dict(element="Ar", j=80., t_max=0.02, dr_fwhm=None)
+        kw = dict(element="Ar", j=80., t_max=0.02, dr_fwhm=None, solver_kwargs={"rtol": 1e-6})
         es = [3000., 500., 8000., 1200.]
         a = energy_scan(ebisim.basic_simulation, dict(kw), es, parallel=False)
         b = energy_scan(ebisim.basic_simulation, dict(kw), es, parallel=True)
